@@ -20,8 +20,14 @@ VERIF = os.path.dirname(os.path.dirname(os.path.abspath(__file__)))
 REPO = os.environ.get("VERIF_REPO", "/repo")
 BUILD = os.path.join(VERIF, "build")
 COQ = os.path.join(VERIF, "coq")
-HARNESS = os.path.join(VERIF, "harness")
-TARGET = os.environ.get("VERIF_TARGET_DIR", os.path.join(BUILD, "target"))
+HARNESS_SRC = os.path.join(VERIF, "harness")
+# Mutation testing without disturbing /repo: VERIF_REPO=/var/tmp/x-repo ./vcheck Cxx builds a
+# shadow copy of the harness manifest against that tree, with its own target dir, work dirs
+# and evidence dir.  Registered checks never set it (they build from /repo).
+SHADOW = None if os.path.realpath(REPO) == "/repo" else hashlib.sha1(os.path.realpath(REPO).encode()).hexdigest()[:10]
+HARNESS = HARNESS_SRC if SHADOW is None else os.path.join(BUILD, "shadow-" + SHADOW)
+TARGET = os.environ.get("VERIF_TARGET_DIR", os.path.join(BUILD, "target" if SHADOW is None else "target-" + SHADOW))
+EVIDENCE_DIR = os.path.join(VERIF, "evidence") if SHADOW is None else os.path.join(BUILD, "evidence-" + SHADOW)
 GUARD = "chalk_verif"
 NCPU = os.cpu_count() or 4
 
@@ -298,7 +304,16 @@ def repo_tree_stamp():
 def build_harness(bins=None, release=False, timeout=3000):
     """Incremental cargo build of the harness against /repo's current working tree with the
     hooks enabled.  Serialised by a lock so that concurrent checks share one build."""
-    with Lock("cargo"):
+    with Lock("cargo" if SHADOW is None else "cargo-" + SHADOW):
+        if SHADOW is not None:
+            os.makedirs(HARNESS, exist_ok=True)
+            man = open(os.path.join(HARNESS_SRC, "Cargo.toml")).read().replace('"/repo/', '"%s/' % os.path.realpath(REPO))
+            mp = os.path.join(HARNESS, "Cargo.toml")
+            if not os.path.exists(mp) or open(mp).read() != man:
+                open(mp, "w").write(man)
+            if not os.path.islink(os.path.join(HARNESS, "src")):
+                os.symlink(os.path.join(HARNESS_SRC, "src"), os.path.join(HARNESS, "src"))
+            shutil.copy(os.path.join(REPO, "Cargo.lock"), os.path.join(HARNESS, "Cargo.lock"))
         lock_src = os.path.join(REPO, "Cargo.lock")
         lock_dst = os.path.join(HARNESS, "Cargo.lock")
         if os.path.exists(lock_src) and (not os.path.exists(lock_dst)):
@@ -398,10 +413,10 @@ class Ctx:
         self.meta = meta
         self.rng = random.Random((seed * 1000003) ^ int(hashlib.sha1(prop_id.encode()).hexdigest()[:8], 16))
         self.t0 = time.time()
-        self.work = os.path.join(BUILD, "work", prop_id)
+        self.work = os.path.join(BUILD, "work" if SHADOW is None else "work-" + SHADOW, prop_id)
         shutil.rmtree(self.work, ignore_errors=True)
         os.makedirs(self.work, exist_ok=True)
-        self.replays = os.path.join(BUILD, "replays")
+        self.replays = os.path.join(BUILD, "replays" if SHADOW is None else "replays-" + SHADOW)
         os.makedirs(self.replays, exist_ok=True)
         self.violations = []
         self.known_hits = []
@@ -511,7 +526,7 @@ class Ctx:
             "wall_s": round(time.time() - self.t0, 2),
             "violations": len(self.violations),
         }
-        os.makedirs(os.path.join(VERIF, "evidence"), exist_ok=True)
-        with open(os.path.join(VERIF, "evidence", "%s.json" % self.id), "w") as f:
+        os.makedirs(EVIDENCE_DIR, exist_ok=True)
+        with open(os.path.join(EVIDENCE_DIR, "%s.json" % self.id), "w") as f:
             json.dump(ev, f, indent=1, default=str)
         return 1 if self.violations else 0
